@@ -91,6 +91,28 @@ def rejected_calls(w, rng):
                 for bad in bads:
                     v = list(good); v.insert(rng.randint(0, len(v)), bad)
                     out.append('setlinks %s %s %s' % (rel, h.slot, lst(v)))
+    # the data of an existing feature re-targeted to an array that does not exist / lives in another block / is uninitialised
+    for f in w.alive('R')[:3]:
+        out.append('single featdata %s id %s' % (f.slot, S('no-such-array')))
+        out.append('single featdata %s id %s' % (f.slot, S('00000000-0000-0000-0000-000000000000')))
+        out.append('single featdata %s id %s' % (f.slot, S('')))
+        out.append('single featdata %s handle $-' % f.slot)
+        for b in blocks:
+            if b.slot != f.block:
+                a2 = w.pick('A', block=b.slot)
+                if a2:
+                    out.append('single featdata %s handle %s' % (f.slot, a2.slot))
+                    out.append('single featdata %s idof %s' % (f.slot, a2.slot))
+    # a data frame with a column without a type
+    for b in blocks[:2]:
+        out.append('mk $x D %s %s %s %s' % (b.slot, S('fresh-df-nothing'), S('t'), lst(['%s:x:Double' % S('c'), '%s:x:Nothing' % S('d')])))
+        out.append('mk $x D %s %s %s %s' % (b.slot, S('fresh-df-nothing1'), S('t'), lst(['%s:x:Nothing' % S('c')])))
+    # positions of another shape than the extents the multi-tag has: accepted or refused — if refused, without a trace
+    for m in w.alive('M')[:3]:
+        pos = getattr(m, 'pos', None)
+        others = [a for a in w.alive('A', block=m.block) if pos is None or a.shape != pos.shape]
+        for a in (others[:3] + w.alive('A', block=m.block)[:2]):
+            out.append('single positions %s %s' % (m.slot, rng.choice(['handle ' + a.slot, 'idof ' + a.slot, 'id ' + S(a.name)])))
     for e in w.alive(['B', 'A', 'T', 'M', 'O', 'G'])[:4]:
         out.append('single metadata %s id %s' % (e.slot, S('00000000-0000-0000-0000-000000000000')))
         out.append('single metadata %s id %s' % (e.slot, S('')))
@@ -173,6 +195,13 @@ def history(rng, tier):
     for s_ in w.alive('S')[:2]:
         if not w.alive('P', parent=s_.slot): w.mk('P', s_)
     C04.dense_links(w, rng)
+    # multi-tags with extents (an array of the shape of the positions): a later change of the positions has something to disagree with
+    for m in w.alive('M')[:3]:
+        pos = getattr(m, 'pos', None)
+        if pos is None or not pos.alive or not pos.shape: continue
+        same = [a for a in w.alive('A', block=m.block) if a.shape == pos.shape and a is not pos]
+        ext = same[0] if same else w.mk('A', next(b for b in w.alive('B') if b.slot == m.block), extra=list(pos.shape))
+        if ext is not None and ext.alive: w.emit('single extents %s handle %s' % (m.slot, ext.slot))
     # a few dimensions and property values to be disturbed
     for a in w.alive('A')[:3]:
         w.emit('adim %s sampled %s ~ ~ ~' % (a.slot, f64(0.5)))
